@@ -8,7 +8,7 @@ EXPL = ("Trace conformance (A1): every path of the two event-loop coroutines' CF
         "completed (and its error propagated) before any dequeue/handler, handlers never overlap shutdown, stopped "
         "exactly once (after finished on stream loops), nothing after it, failure paths run no further callback.")
 
-LOOP_CHECKS = {"L1", "L2", "L3", "L4", "L5", "L7", "L11", "L13"}
+LOOP_CHECKS = {"L1", "L2", "L3", "L4", "L5", "L7", "L11"}
 
 
 class RefreshSpec(Spec):
@@ -66,7 +66,7 @@ def strat_kind(name):
     return "restart"
 
 
-def run_loops(ctx, fx, rule, checks, alpha=None):
+def run_loops(ctx, fx, rule, checks, alpha=None, kinds=("plain", "stream")):
     """shared by the properties that read the loop automata"""
     A = alpha or loops.lifecycle_alphabet()
     found = loops.find_loops(fx)
@@ -76,6 +76,8 @@ def run_loops(ctx, fx, rule, checks, alpha=None):
         ctx.viol(rule, "floor:loop-kinds", "expected one plain and one stream loop, found %s" % kinds)
     out = []
     for f, kind in found:
+        if kind not in kinds:
+            continue
         b = ctx.body(fx, f)
         n = nfa.build(b, A, fx, depth=(3 if ctx.tier == "thorough" else 2))
         viols, ps = nfa.check(n, loops.Lifecycle(kind == "stream", checks))
